@@ -232,6 +232,17 @@ def safe_execute(mod, case, stats):
     osyris), minimised and replayed like any other violation.  HarnessError (explicitly unsupported constructs,
     lost baton, ...) is never converted."""
     try:
+        if "sequence" in case:
+            # a violation that needs earlier runs in the same process (state kept by the code under test across calls):
+            # the earlier cases are executed first, only the last one is judged
+            for c in case["sequence"][:-1]:
+                try:
+                    mod.execute(c, Stats())
+                except HarnessError:
+                    raise
+                except Exception:
+                    pass
+            return safe_execute(mod, case["sequence"][-1], stats)
         return mod.execute(case, stats)
     except HarnessError:
         raise
@@ -243,6 +254,31 @@ def safe_execute(mod, case, stats):
         return {"violations": [{"class": "oracle-crash", "clause": type(e).__name__, "key": {"class": "oracle-crash", "exception": type(e).__name__},
                                 "detail": {"error": scrub(f"{type(e).__name__}: {e}")[:300], "frames": frames}}],
                 "nontrivial": False, "signature": None}
+
+
+def _child(conn, args):
+    try:
+        conn.send(("ok", _worker(args)))
+    except BaseException as e:  # noqa: B902
+        try:
+            conn.send(("err", f"{type(e).__name__}: {e}"[:4000]))
+        except Exception:
+            pass
+    finally:
+        conn.close()
+
+
+def history_of(r, jobs):
+    """runs executed before run r by the same worker process (see the plan in run_check)"""
+    return list(range(r % jobs, r, jobs))
+
+
+def regenerate(mod, base_seed, r, tier):
+    seed = H(base_seed, mod.PROPERTY, r)
+    case = mod.generate(random.Random(seed), tier)
+    case["seed"] = seed
+    case["run"] = r
+    return case
 
 
 def _worker(args):
@@ -295,29 +331,48 @@ def run_check(modname, tier, base_seed=None, jobs=None, runs=None):
     t0 = time.time()
     if hasattr(mod, "prepare"):
         mod.prepare(tier)
-    # disjoint, interleaved index ranges so that every worker sees every swarm kind
-    chunks = [list(range(k, nruns, jobs * 4)) for k in range(jobs * 4)]
-    chunks = [c for c in chunks if c]
+    # process p executes runs p, p+jobs, p+2*jobs, ... in this order: every process sees every swarm kind and -- should
+    # the code under test keep process-global state -- the history of every run is a pure function of (runs, jobs)
+    plan = [list(range(k, nruns, jobs)) for k in range(jobs)]
+    plan = [c for c in plan if c]
     stats = Stats()
     viols = []
-    if jobs == 1:
-        for c in chunks:
+    if len(plan) <= 1:
+        for c in plan:
             p, v = _worker((modname, base_seed, c, tier))
             stats.merge(Stats.from_payload(p))
             viols.extend(v)
     else:
         ctx = mp.get_context("fork")
-        with ProcessPoolExecutor(max_workers=jobs, mp_context=ctx) as ex:
-            futs = [ex.submit(_worker, (modname, base_seed, c, tier)) for c in chunks]
-            for f in futs:
-                try:
-                    p, v = f.result(timeout=getattr(mod, "BATCH_WALL_GUARD", 7200))
-                except Exception as e:
-                    for g in futs:
-                        g.cancel()
-                    raise HarnessError(f"worker failed: {e!r}") from e
-                stats.merge(Stats.from_payload(p))
-                viols.extend(v)
+        procs = []
+        for c in plan:
+            rd, wr = ctx.Pipe(duplex=False)
+            pr = ctx.Process(target=_child, args=(wr, (modname, base_seed, c, tier)))
+            pr.start()
+            wr.close()
+            procs.append((pr, rd))
+        guard = getattr(mod, "BATCH_WALL_GUARD", 7200)
+        failure = None
+        for pr, rd in procs:
+            try:
+                if failure is None and rd.poll(guard):
+                    kind, payload = rd.recv()
+                    if kind == "ok":
+                        p, v = payload
+                        stats.merge(Stats.from_payload(p))
+                        viols.extend(v)
+                    else:
+                        failure = payload
+                elif failure is None:
+                    failure = "worker timed out"
+            except (EOFError, OSError) as e:
+                failure = failure or f"worker died: {e!r}"
+            finally:
+                if failure is not None and pr.is_alive():
+                    pr.terminate()
+                pr.join(30)
+        if failure is not None:
+            raise HarnessError(f"worker failed: {failure}")
     extra = {}
     if hasattr(mod, "finalize"):
         # e.g. the compiled-kernel anchor: runs in the parent, after the pool
@@ -337,19 +392,24 @@ def run_check(modname, tier, base_seed=None, jobs=None, runs=None):
     for k in sorted(groups, key=lambda k: tuple(str(x) for x in k))[: getattr(mod, "MAX_REPORTED_GROUPS", 8)]:
         v = groups[k][0]
         case, viol = v["case"], v["violation"]
+        ok, msg, path = False, "", None
         try:
             small_case, small_viol = shrink(mod, case, viol, shrink_budget)
-        except HarnessError:
-            raise
+            rec = make_replay(mod, small_case, small_viol, original=case)
+            path = write_replay(prop, rec)
+            ok, msg = verify_replay(prop, path)
+        except HarnessError as e:
+            msg = str(e)
         except Exception:
             raise HarnessError("shrinker crashed: " + traceback.format_exc())
-        rec = make_replay(mod, small_case, small_viol, original=case)
-        path = write_replay(prop, rec)
-        ok, msg = verify_replay(prop, path)
         if not ok:
-            print(f"HARNESS-ERROR property={prop} replay of {path} did not reproduce: {msg}", flush=True)
-            exit_code = EXIT_HARNESS
-            continue
+            # not reproducible on its own: does it need the runs that the same worker process executed before it?
+            found = sequence_replay(mod, prop, base_seed, tier, jobs if len(plan) > 1 else 1, case, viol)
+            if found is None:
+                print(f"HARNESS-ERROR property={prop} replay of {path} did not reproduce (alone or with its process history): {msg[:300]}", flush=True)
+                exit_code = EXIT_HARNESS
+                continue
+            small_case, small_viol, path = found
         kf = match_known(known, small_viol.get("key", {}))
         if kf is not None:
             n_known += 1
@@ -471,6 +531,9 @@ def replay_file(modname, path):
         if same_failure(v, want):
             got = v
             break
+    if os.environ.get("VERIF_PROBE"):
+        print("PROBE " + dumps(got))
+        return EXIT_OK
     if got is None:
         print(f"REPLAY property={mod.PROPERTY} file={path} result=NOT-REPRODUCED other_violations={len(res.get('violations', []))}")
         return EXIT_OK
@@ -479,6 +542,84 @@ def replay_file(modname, path):
     print(f"VIOLATION property={mod.PROPERTY} replay={path}")
     print("  " + dumps(got)[:1500])
     return EXIT_VIOLATION if same else EXIT_HARNESS
+
+
+def probe_replay(prop, rec):
+    """Run a replay record in a fresh interpreter; returns the matching violation record it produces, or None."""
+    import tempfile
+
+    fd, tmp = tempfile.mkstemp(prefix=f"{prop}-probe-", suffix=".json", dir=os.environ.get("VERIF_REPLAY_DIR") if os.path.isdir(os.environ.get("VERIF_REPLAY_DIR", "/nonexistent")) else None)
+    os.close(fd)
+    try:
+        with open(tmp, "w") as f:
+            f.write(dumps(rec))
+        env = dict(os.environ)
+        env["PYTHONHASHSEED"] = "777"
+        env["VERIF_NO_REEXEC"] = "1"
+        env["VERIF_PROBE"] = "1"
+        env.pop("HOME", None)
+        try:
+            p = subprocess.run([sys.executable, os.path.join(VERIF, "check"), prop, "--replay", tmp], capture_output=True, text=True, timeout=900, env=env)
+        except subprocess.TimeoutExpired:
+            return None
+        for line in p.stdout.splitlines():
+            if line.startswith("PROBE "):
+                got = json.loads(line[6:])
+                return got
+        return None
+    finally:
+        try:
+            os.remove(tmp)
+        except OSError:
+            pass
+
+
+def sequence_replay(mod, prop, base_seed, tier, jobs, case, viol):
+    """The shortest suffix of the worker's history (then with single predecessors dropped) that reproduces `viol`
+    in a fresh interpreter.  Returns (case-with-sequence, violation record, replay path) or None."""
+    r = case.get("run")
+    if r is None:
+        return None
+    preds = history_of(r, jobs)
+    if not preds:
+        return None
+    want = {k: viol.get(k) for k in ("class", "clause", "key")}
+    hist = None
+    k = 1
+    tried = 0
+    while tried < 8:
+        take = preds[-k:]
+        seq = [regenerate(mod, base_seed, q, tier) for q in take] + [case]
+        got = probe_replay(prop, {"property": prop, "case": {"sequence": seq, "run": r, "seed": case.get("seed")}, "violation": want})
+        tried += 1
+        if got is not None:
+            hist = seq
+            break
+        if k >= len(preds):
+            break
+        k = min(len(preds), k * 4)
+    if hist is None:
+        return None
+    # drop single predecessors while it still reproduces (bounded)
+    i = 0
+    budget = 10
+    while i < len(hist) - 1 and budget > 0:
+        cand = hist[:i] + hist[i + 1:]
+        budget -= 1
+        g2 = probe_replay(prop, {"property": prop, "case": {"sequence": cand, "run": r, "seed": case.get("seed")}, "violation": want})
+        if g2 is not None:
+            hist, got = cand, g2
+        else:
+            i += 1
+    small_case = {"sequence": hist, "run": r, "seed": case.get("seed"), "note": "needs the earlier cases of this sequence to run first in the same process (state kept across calls)"}
+    got = dict(got)
+    got.setdefault("key", {})
+    rec = make_replay(mod, small_case, got)
+    path = write_replay(prop, rec)
+    ok, msg = verify_replay(prop, path)
+    if not ok:
+        return None
+    return small_case, got, path
 
 
 def verify_replay(prop, path):
